@@ -9,10 +9,16 @@ use std::sync::atomic::{AtomicUsize, Ordering};
 #[cfg(may_verif)]
 use crate::verif::atomic::{AtomicUsize, Ordering};
 use std::sync::Arc;
+#[cfg(not(may_verif))]
 use std::thread;
+#[cfg(may_verif)]
+use self::verif_tl::thread;
 use std::time::{Duration, Instant};
 
+#[cfg(not(may_verif))]
 use may_queue::mpsc::Queue;
+#[cfg(may_verif)]
+use crate::verif::Queue;
 use may_queue::mpsc_list_v1::Entry;
 #[cfg(not(may_verif))]
 use may_queue::mpsc_list_v1::Queue as TimeoutQueue;
@@ -271,6 +277,9 @@ pub struct TimerThread<T> {
     remove_list: Queue<TimeoutHandle<T>>,
     // the timer thread wakeup handler
     wakeup: AtomicOption<Arc<thread::Thread>>,
+    // lets a verification harness end `run` (never set otherwise)
+    #[cfg(may_verif)]
+    stop: std::sync::atomic::AtomicBool,
 }
 
 impl<T> TimerThread<T> {
@@ -279,6 +288,18 @@ impl<T> TimerThread<T> {
             timer_list: TimeOutList::new(),
             remove_list: Queue::new(),
             wakeup: AtomicOption::none(),
+            #[cfg(may_verif)]
+            stop: std::sync::atomic::AtomicBool::new(false),
+        }
+    }
+
+    /// verification harness only: make `run` return at the top of its next loop iteration; with `wake` the
+    /// timer thread is also unparked (through the same virtualisable park token as `add_timer` uses)
+    #[cfg(may_verif)]
+    pub fn verif_stop(&self, wake: bool) {
+        self.stop.store(true, std::sync::atomic::Ordering::SeqCst);
+        if wake {
+            thread::unpark_addr(&self.wakeup as *const _ as usize);
         }
     }
 
@@ -302,8 +323,15 @@ impl<T> TimerThread<T> {
 
     // the timer thread function
     pub fn run<F: Fn(T)>(&self, f: &F) {
+        // the park token of this thread is identified by the address of `wakeup` for the harness
+        #[cfg(may_verif)]
+        thread::set_park_addr(&self.wakeup as *const _ as usize);
         let current_thread = Arc::new(thread::current());
         loop {
+            #[cfg(may_verif)]
+            if self.stop.load(std::sync::atomic::Ordering::SeqCst) {
+                return;
+            }
             while let Some(h) = self.remove_list.pop() {
                 h.remove();
             }
@@ -344,6 +372,73 @@ mod verif_tl {
     use std::panic::Location;
 
     const NONE: u64 = u64::MAX;
+
+    /// twin of the parts of `std::thread` the timer thread uses: `park`, `park_timeout` and `Thread::unpark` go
+    /// through the harness' virtual park token (keyed by the address set with `set_park_addr`) when it handles
+    /// them, and are the real calls otherwise
+    pub mod thread {
+        use crate::verif::hooks;
+        use std::cell::Cell;
+        #[allow(unused_imports)]
+        pub use std::thread::{sleep, spawn};
+        use std::time::Duration;
+
+        thread_local! { static PARK_ADDR: Cell<usize> = const { Cell::new(0) }; }
+
+        pub fn set_park_addr(a: usize) {
+            PARK_ADDR.with(|c| c.set(a));
+        }
+
+        pub struct Thread {
+            t: std::thread::Thread,
+            addr: usize,
+        }
+        impl Thread {
+            pub fn unpark(&self) {
+                if self.addr != 0 {
+                    if let Some(h) = hooks() {
+                        if (h.unpark)(self.addr) {
+                            return;
+                        }
+                    }
+                }
+                self.t.unpark();
+            }
+        }
+        /// unpark whoever parks on the token `addr` (only meaningful when the harness virtualises it)
+        pub fn unpark_addr(addr: usize) {
+            if let Some(h) = hooks() {
+                (h.unpark)(addr);
+            }
+        }
+        pub fn current() -> Thread {
+            Thread {
+                t: std::thread::current(),
+                addr: PARK_ADDR.with(|c| c.get()),
+            }
+        }
+        fn vpark(dur: Option<Duration>) -> bool {
+            let a = PARK_ADDR.with(|c| c.get());
+            if a != 0 {
+                if let Some(h) = hooks() {
+                    if (h.park)(a, dur).is_some() {
+                        return true;
+                    }
+                }
+            }
+            false
+        }
+        pub fn park() {
+            if !vpark(None) {
+                std::thread::park();
+            }
+        }
+        pub fn park_timeout(d: Duration) {
+            if !vpark(Some(d)) {
+                std::thread::park_timeout(d);
+            }
+        }
+    }
 
     pub trait Timed {
         fn time(&self) -> u64;
